@@ -44,7 +44,9 @@ Log == TLCGet(10)
 \* asserted for files whose own serialisation loads strictly under their current version (DESIGN 6.21)
 CompatExact(r) == r.srcok => (((r.nerr = 0) <=> r.relabel_ok) /\ (r.maskhas <=> r.relabel_ok))
 \* other_ok: the other file of a two-file model still has its own version, is written with it and reads back as before
-SetVersionExact(r) == r.srcok => (((r.setver_ok) <=> (r.nerr = 0)) /\ (r.setver_ok => (r.same /\ r.after_ok)) /\ r.other_ok)
+\* (set_version goes by the check for every file, also one that was loaded leniently and does not conform to its own version)
+SetVersionExact(r) == /\ (r.setver_ok <=> (r.nerr = 0))
+                      /\ r.srcok => ((r.setver_ok => (r.same /\ r.after_ok)) /\ r.other_ok)
 Report(j, pred) == PrintT(<<"V", ToJson([step |-> j, pred |-> pred, prop |-> "C17", r |-> Log[j]])>>)
 Judge(j) == /\ IF CompatExact(Log[j]) THEN TRUE ELSE Report(j, "CompatExact")
             /\ IF SetVersionExact(Log[j]) THEN TRUE ELSE Report(j, "SetVersionExact")
